@@ -36,17 +36,17 @@ Section Generic.
   Proof. exact (spec_fuel_enough try_leaf). Qed.
 
   (* EDI: same statement under the guard no_root_repeat (the unit left over when the declared
-     top-level sequence has completed does not start the first top-level declaration again).
-     FULL STATEMENT: ... -> run (edi_step try_leaf) (run_fuel ds us) (init ds us) = spec try_leaf ds us.
-     PROVED for every fuel with which the run reaches a terminal result; MISSING: termination of
-     edi_step within run_fuel (the potential of Proofs/HierTerm.v has to count the re-instantiated
-     root frame as well); checked on every correspondence case and swept in
-     edi_terminates_small_scope. *)
-  Theorem edi_eq_spec_nested_partial : forall ds us fuel,
+     top-level sequence has completed does not start the first top-level declaration again) *)
+  Theorem edi_eq_spec_nested : forall ds us,
     Forall (WF try_leaf) ds -> count_tgts ds <= 1 -> no_root_repeat try_leaf ds us ->
-    snd (run (edi_step try_leaf) fuel (init ds us)) <> TOutOfFuel ->
-    run (edi_step try_leaf) fuel (init ds us) = spec try_leaf ds us.
-  Proof. exact (edi_eq_spec_run try_leaf). Qed.
+    run (edi_step try_leaf) (run_fuel ds us) (init ds us) = spec try_leaf ds us.
+  Proof. exact (edi_eq_spec_full try_leaf). Qed.
+
+  (* the EDI machine terminates within the same bound, guard or not (also when the root group is
+     instantiated again: that takes a unit each time) *)
+  Theorem edi_terminates : forall ds us, Forall (WF try_leaf) ds ->
+    snd (run (edi_step try_leaf) (run_fuel ds us) (init ds us)) <> TOutOfFuel.
+  Proof. exact (edi_terminates try_leaf). Qed.
 
   (* units are consumed strictly left to right, none twice: in every state reachable from st0
      (through any number of loop iterations and Read/Release boundaries) the unprocessed units
@@ -75,13 +75,10 @@ Theorem flat_machine_eq_spec : forall ds us,
   run_kind KHier ds us = spec_kind KHier ds us.
 Proof. exact flat_machine_eq_spec_full. Qed.
 
-Theorem edi_machine_eq_spec_nested_partial : forall ds us fuel,
+Theorem edi_machine_eq_spec_nested : forall ds us,
   forallb wfb ds = true -> count_tgts ds <= 1 -> no_root_repeat edi_leaf ds us ->
-  snd (run (edi_step edi_leaf) fuel (init ds us)) <> TOutOfFuel ->
-  run (edi_step edi_leaf) fuel (init ds us) = spec edi_leaf ds us.
-Proof.
-  intros ds us fuel H. apply (edi_eq_spec_run edi_leaf). apply wfb_Forall_edi. exact H.
-Qed.
+  run_kind KEdi ds us = spec_kind KEdi ds us.
+Proof. exact edi_machine_eq_spec_full. Qed.
 
 (* F14 (known finding): without the guard the EDI statement is false.  Declarations A (target,
    max 1), Z (max 1), units A Z A Z: the machine delivers both A and ends with EOF, the greedy
@@ -104,16 +101,6 @@ Proof.
   exists [D 100 false true 0 (Some 0) (LName 1) []], [U 1 1].
   vm_compute. repeat split; discriminate.
 Qed.
-
-(* termination of the EDI machine over a small scope (a finite sweep, not the general statement):
-   every hierarchy of the shapes {d}, {d d}, {d[d]}, {g[d]} with min in {0,1,2}, max in
-   {1,2,unbounded}, names in {1,2}, and every word of length <= 3 over {1,2,24} reaches a terminal
-   result within run_fuel iterations *)
-Theorem edi_terminates_small_scope :
-  forallb (fun ds => forallb (fun us =>
-      negb (match snd (run_kind KEdi ds us) with TOutOfFuel => true | _ => false end))
-    small_words) small_hiers = true.
-Proof. vm_compute. reflexivity. Qed.
 
 (* ---- non-vacuity ---------------------------------------------------------------------------------- *)
 (* group G(target, 0..unbounded)[A(1..1), B(0..2)] then Z(1..1); word A B B A B Z: two G instances
